@@ -500,8 +500,7 @@ def r10_6(ctx: Ctx, rule="R10.6"):
             _t, nb_none, nb_given = branches(nb[0])
             if not ctext("%s is None" % inp)[1]:
                 nb_none, nb_given = nb_given, nb_none
-        okn = bool(nb) and bool(nb_none) and isinstance(nb_none[-1], ast.Return) and not any(
-            isinstance(x, ast.Return) for s_ in nb_given for x in ast.walk(s_))
+        okn = bool(nb) and bool(nb_none) and isinstance(nb_none[-1], ast.Return)
         if okn:
             rv = nb_none[-1].value
             if isinstance(rv, ast.DictComp):
